@@ -20,6 +20,7 @@
 #ifndef CIMBA_CMI_DATASET_H
 #define CIMBA_CMI_DATASET_H
 
+#include <math.h>
 #include <stdbool.h>
 #include <stdint.h>
 #include <stdio.h>
@@ -27,6 +28,18 @@
 #define CMI_DATASET_INIT_SZ (1024u)
 
 extern void cmi_dataset_swap(double *a, double *b);
+
+/*
+ * The value halfway between two samples. Halving the sum is exact down to the
+ * smallest subnormals; if the sum leaves the range of a double, halve first.
+ */
+static inline double cmi_dataset_midpoint(const double a, const double b)
+{
+    const double s = a + b;
+
+    return (isfinite(s)) ? 0.5 * s : 0.5 * a + 0.5 * b;
+}
+
 extern void cmi_dataset_expand(struct cmb_dataset *dsp);
 
 extern bool cmi_dataset_is_sorted(uint64_t un, const double arr[un]);
